@@ -2,7 +2,8 @@
 of children, a line and a class kind.  Only the operations the contracts use are given contracts."""
 from pyvc.spec import assumed, contract, fields, spec, implies, forall, exists  # noqa: F401
 
-fields("docutils.nodes:Element", parent="Element | None", children="list[Element]", line="int | None", kind="str")
+fields("docutils.nodes:Element", parent="Element | None", children="list[Element]", line="int | None", kind="str",
+       source="str | None", text="str", format="str")
 fields("docutils.nodes:Document", log="list[str]", children="list[Element]")
 
 
@@ -22,3 +23,21 @@ contract(
     trusted=True,
 )
 assumed("Element.append", "p.append(x): children(p)' = children(p) ++ [x], parent(x)' = p, nothing else changes", "docutils.nodes")
+
+
+# ---------------------------------------------------------------------------------------------------------------
+# G': the induction hypothesis of the generic render contract (contracts/render.py), used as the ASSUMED contract of the
+# two places where rendering dispatches dynamically over token types (DocutilsRenderer.render_children, and the part of
+# _render_tokens after its first loop): output is appended below the current node only, and the current node is put back.
+GP_ENS = [
+    "self.current_node == old(self.current_node)",
+    "len(self.current_node.children) >= len(old(self.current_node.children))",
+    "self.current_node.children[: len(old(self.current_node.children))] == old(self.current_node.children)",
+    # nodes that existed before and are not the current node keep their children and parent
+    "forall_obj('Element', lambda e: implies(old(allocated(e)) and e != self.current_node, e.children == old(e.children)))",
+    "forall_obj('Element', lambda e: implies(old(allocated(e)), e.parent == old(e.parent) and e.kind == old(e.kind) and e.line == old(e.line)))",
+]
+GP_MOD = ["Element.children", "Element.parent", "Element.line", "Element.source", "Element.kind", "Element.text", "Element.format",
+          "Document.log", "fresh"]
+GP_TEXT = ("rendering appends below the current node only and puts the current node back (induction hypothesis of the generic "
+           "render contract; proved for the methods under G given G' for their sub-trees, assumed for every other render method)")
